@@ -741,6 +741,100 @@ func (g *SpecGen) recordContracts(r *Record) {
 	g.sizeContract(r)
 	g.marshalToContract(r)
 	g.marshalContract(r)
+	g.encodeContract(r)
+}
+
+const ewT = "*iohelp.ErrorWriter"
+
+// encodeContract: EncodeBebop writes the reference encoding to the underlying writer
+// unless an error is latched, and every failure of that writer surfaces as an error.
+func (g *SpecGen) encodeContract(r *Record) {
+	V := g.V(g.o.Ptr)
+	self := R(r.Name)
+	g.line("func %s.EncodeBebop", g.recvSwitch(r))
+	g.line("  requires okWI(iow)")
+	g.line("  requires %s() && %s <= 4611686018427387904", g.fn("wfH", r.Name), g.sizeX(self, V))
+	if g.hasByteArr(self, map[string]bool{}) {
+		g.line("  requires istype(iow, %s) ==> (forall k Loc :: ref(mem([]byte)[k]) != ref(asptr(iow, %s).buffer))", ewT, ewT)
+		if r.Kind == Struct {
+			for _, f := range r.Fields {
+				if f.Type.Kind == Arr && isByteT(f.Type.Elem) {
+					g.line("  requires istype(iow, %s) ==> ref(%s) != ref(asptr(iow, %s).buffer)", ewT, g.fieldExpr(r, f), ewT)
+				}
+			}
+		}
+	}
+	if r.Kind == Message {
+		for _, f := range r.Fields {
+			if f.Type.Kind == Prim && (isByteT(f.Type) || f.Type.Name == "guid") {
+				// the pointee lives in the byte heap: it must not be the writer's scratch buffer
+				g.line("  requires istype(iow, %s) ==> ref(%s) != ref(asptr(iow, %s).buffer)", ewT, g.fieldExpr(r, f), ewT)
+			}
+		}
+	}
+	g.line("  ensures [LATCH] (failed(uw(iow)) && !old(failed(uw(iow)))) ==> err != nil")
+	g.line("  ensures [LATCH] istype(iow, %s) ==> okW(asptr(iow, %s)) && (err != nil ==> asptr(iow, %s).Err != nil) && (old(asptr(iow, %s).Err) != nil ==> asptr(iow, %s).Err != nil)", ewT, ewT, ewT, ewT, ewT)
+	g.line("  ensures [ENC] err == nil ==> written(uw(iow)) == old(%s)", g.encX(self, "written(uw(iow))", V))
+	g.line("  modifies asptr(iow, %s).Err, asptr(iow, %s).buffer[0:8], written(), failed(), fresh(iohelp.ErrorWriter), fresh(byte), tr(), hw(), alloc()", ewT, ewT)
+	if r.Kind == Struct && len(r.Fields) == 0 {
+		return
+	}
+	w := &walk{ord: 1, bytes: g.hasByteArr(self, map[string]bool{})}
+	start := "old(written(uw(iow)))"
+	switch r.Kind {
+	case Struct:
+		tr := start
+		for _, f := range r.Fields {
+			v := g.fieldExpr(r, f)
+			g.walkStream(f.Type, v, tr, w)
+			tr = "oh(" + g.encX(f.Type, tr, v) + ")"
+		}
+	case Message:
+		tr := fmt.Sprintf("Ew4(%s, u32w(oh(%s) - 4))", start, g.sizeX(self, V))
+		for _, f := range msgFields(r, true) {
+			v := "*" + g.fieldExpr(r, f)
+			g.walkStream(f.Type, v, fmt.Sprintf("snoc(%s, %d)", tr, f.Index), w)
+			tr = fmt.Sprintf("ite(%s != nil, oh(%s), %s)", g.fieldExpr(r, f), g.encX(f.Type, fmt.Sprintf("snoc(%s, %d)", tr, f.Index), v), tr)
+		}
+	case Union:
+		hdr := fmt.Sprintf("Ew4(%s, u32w(oh(%s) - 5))", start, g.sizeX(self, V))
+		for i, b := range r.Branches {
+			v := "*bbp." + GoFieldName(r, b.Name, g.o)
+			g.walkStream(R(b.Name), v, fmt.Sprintf("snoc(%s, %d)", hdr, r.BranchIx[i]), w)
+		}
+	}
+}
+
+// walkStream emits the loop invariants of EncodeBebop for one field value.
+func (g *SpecGen) walkStream(t *Type, v, tr string, w *walk) {
+	if t.Kind != Arr || (t.Elem.Kind == Prim && t.Elem.Name == "byte") {
+		return
+	}
+	k := w.ord
+	w.ord++
+	en := fmt.Sprintf("oh(%s(Ew4(%s, u32w(len(ranged(%d)))), ranged(%d), it(%d)))", g.fn("encel", t.ID()), tr, k, k, k)
+	if isByteT(t.Elem) {
+		// uint8 arrays are streamed element by element: the raw run grows one byte at a time
+		en = fmt.Sprintf("tr.raw(Ew4(%s, u32w(len(ranged(%d)))), old(mem(byte)), loc(ranged(%d)), it(%d))", tr, k, k, k)
+		g.line("  invariant loop %d: ref(ranged(%d)) != ref(w.buffer)", k, k)
+	}
+	if w.bytes {
+		g.line("  invariant loop %d: forall k Loc :: allocated(k) && ref(k) != ref(w.buffer) ==> mem(byte)[k] == old(mem(byte))[k]", k)
+	}
+	g.line("  invariant loop %d: istype(iow, %s) ==> w.buffer == old(asptr(iow, %s).buffer)", k, ewT, ewT)
+	g.line("  invariant loop %d: ranged(%d) == %s", k, k, v)
+	g.line("  invariant loop %d: okW(w)", k)
+	g.line("  invariant loop %d: w.Writer == uw(iow)", k)
+	g.line("  invariant loop %d: w != nil && (istype(iow, %s) ==> w == asptr(iow, %s)) && (!istype(iow, %s) ==> isfresh(w) && isfresh(w.buffer))", k, ewT, ewT, ewT)
+	g.line("  invariant loop %d: (old(asptr(iow, %s).Err) != nil && istype(iow, %s)) ==> w.Err != nil", k, ewT, ewT)
+	g.line("  invariant loop %d: (w.Err == nil ==> written(w.Writer) == %s) && UnfT(%s)", k, en, en)
+	for _, fr := range append(append([]string(nil), w.frames...), g.copyFrames(t.Elem)...) {
+		g.line("  invariant loop %d: %s", k, fr)
+	}
+	savedF := w.frames
+	w.frames = append(append([]string(nil), w.frames...), g.copyFrames(t.Elem)...)
+	defer func() { w.frames = savedF }()
+	g.walkStream(t.Elem, fmt.Sprintf("ranged(%d)[it(%d)]", k, k), en, w)
 }
 
 // presentFields lists message fields in index order, skipping deprecated ones when enc is true.
